@@ -1688,3 +1688,47 @@ func (p *Prog) nilOutcomeLits(v ssa.Value, wantNil bool) ([]Lit, bool) {
 	}
 	return out, true
 }
+
+// MemberLit decodes a set-membership literal: `_, ok := M[k]` (ok / not ok) on any map used as a set, or the
+// value form `M[k]` / `!M[k]` on a map[K]bool (a set whose members are stored as true). Returns the lookup and
+// whether the literal asserts that k is a member.
+func MemberLit(l Lit) (*ssa.Lookup, bool, bool) {
+	switch l.Kind {
+	case "ok":
+		if lk, ok := l.Of.(*ssa.Lookup); ok {
+			return lk, l.Pol, true
+		}
+	case "bool":
+		var lk *ssa.Lookup
+		switch x := l.Of.(type) {
+		case *ssa.Lookup:
+			if !x.CommaOk {
+				lk = x
+			}
+		case *ssa.Extract:
+			if t, ok := x.Tuple.(*ssa.Lookup); ok && x.Index == 0 {
+				lk = t
+			}
+		}
+		if lk != nil {
+			if mt, ok := lk.X.Type().Underlying().(*types.Map); ok {
+				if b, ok := mt.Elem().Underlying().(*types.Basic); ok && b.Kind() == types.Bool {
+					return lk, l.Pol, true
+				}
+			}
+		}
+	}
+	return nil, false, false
+}
+
+// SetInsert reports whether a map update inserts its key into a set: any update of a non-bool-valued map, or
+// storing the constant true into a map[K]bool (storing false would remove the key from the set MemberLit reads).
+func SetInsert(mu *ssa.MapUpdate) bool {
+	if mt, ok := mu.Map.Type().Underlying().(*types.Map); ok {
+		if b, ok := mt.Elem().Underlying().(*types.Basic); ok && b.Kind() == types.Bool {
+			k, isC := ConstBool(mu.Value)
+			return isC && k
+		}
+	}
+	return true
+}
